@@ -105,8 +105,10 @@ TTwinNum == LET r == Facts[l] IN
   /\ stat' = [stat EXCEPT !.twinnum = @ + 1]
   /\ UNCHANGED <<qdim, qshape, rel, thseen>>
 (* C05-B: composing the two relations returns the original within BudgetInverse ulps (twice that *)
-(* when a square root is involved; times kappa = 8 for the rational heat-capacity-ratio forms,   *)
-(* whose round trip has condition number gamma/(gamma-1) <= 5 on the admissible states drawn)    *)
+(* when a square root is involved, twice for the rational heat-capacity-ratio forms).  Where the *)
+(* intermediate quantity is the heat capacity ratio itself the harness has divided the error by  *)
+(* gamma/(gamma - 1): rounding gamma to the numeric type loses gamma - 1 to that relative         *)
+(* accuracy whatever the formulas; every other round trip of the family is well conditioned.     *)
 TInverse == LET r == Facts[l] IN
   /\ IsEvent("Inverse") /\ r.fwd \in DOMAIN rel /\ r.back \in DOMAIN rel
   /\ Judge(<< <<r.nonfinite = 0 /\ r.ulps <= r.kappa * (IF r.sqrt = 1 THEN 2 * BudgetInverse ELSE BudgetInverse),
